@@ -81,6 +81,7 @@ type probeCounts struct {
 	Panics             int64
 	MutatingOnObj      int64 // mutating operations on one object (history length measure)
 	PoolOutstanding    int64 // pooled objects taken and not put back when the run was over (O5, informational)
+	AliasedArgs        int64 // arguments passed as substrings of library-returned strings
 }
 
 func (a *probeCounts) add(b *probeCounts) {
@@ -98,6 +99,7 @@ func (a *probeCounts) add(b *probeCounts) {
 	a.Panics += b.Panics
 	a.MutatingOnObj += b.MutatingOnObj
 	a.PoolOutstanding += b.PoolOutstanding
+	a.AliasedArgs += b.AliasedArgs
 }
 
 type cell struct {
@@ -118,6 +120,9 @@ type runCtx struct {
 	cells []*cell
 	tasks []*taskCtx
 	sim   *rt.Sim
+	// shared, read-only error values (Plan.SharedErrs)
+	sharedErrs   []error
+	sharedErrVer []int
 }
 
 type runResult struct {
@@ -399,11 +404,11 @@ func (x *runCtx) execOp(tc *taskCtx, opi int, op Op) {
 	if op.C >= 0 {
 		c = x.cells[op.C]
 	}
-	if op.D >= 0 && op.K != kExtra {
+	if op.D >= 0 && op.K != kExtra && op.K != kErrStr {
 		d = x.cells[op.D]
 	}
 	dLock := op.D
-	if op.K == kExtra {
+	if op.K == kExtra || op.K == kErrStr {
 		dLock = -1
 	}
 	unlock := x.lockCells(op.C, dLock)
@@ -415,6 +420,11 @@ func (x *runCtx) execOp(tc *taskCtx, opi int, op Op) {
 		a = c.api
 	case op.V != 0:
 		a = apis[op.V]
+	case op.K == kErrStr && op.D >= 0:
+		if len(x.sharedErrs) == 0 {
+			return
+		}
+		a = apis[x.sharedErrVer[op.D%len(x.sharedErrs)]]
 	case op.K == kErrStr:
 		if tc.lastErr == nil {
 			return
@@ -494,7 +504,14 @@ func (x *runCtx) execOp(tc *taskCtx, opi int, op Op) {
 	if c != nil {
 		obj = c.p
 	}
-	callOp(a, op, obj, tc.lastErr, &out)
+	theErr := tc.lastErr
+	if op.K == kErrStr && op.D >= 0 {
+		theErr = x.sharedErrs[op.D%len(x.sharedErrs)] // a value every task may look at
+	}
+	if x.plan.AliasArgs {
+		op = x.aliasArgs(tc, op)
+	}
+	callOp(a, op, obj, theErr, &out)
 
 	if op.K == kParse && op.V == 20 {
 		if t := rt.Cur(); t != nil && t.LastPoolStale > countParts(op.S) {
@@ -524,7 +541,7 @@ func (x *runCtx) execOp(tc *taskCtx, opi int, op Op) {
 	r.res = out.res + "|" + hexs(after)
 	switch op.K {
 	case kErrStr:
-		r.key = fmt.Sprintf("%d|errstr|%s", a.Ver(), errIdent(tc.lastErr))
+		r.key = fmt.Sprintf("%d|errstr|%s", a.Ver(), errIdent(theErr))
 	case kRating:
 		r.key = fmt.Sprintf("%d|rating|%016x", a.Ver(), math.Float64bits(op.F))
 		r.calmable = true
@@ -635,6 +652,31 @@ func (x *runCtx) execOp(tc *taskCtx, opi int, op Op) {
 	if x.armed("C09") && c != nil && op.K != kSet {
 		x.wellFormed(tc, opi, c)
 	}
+}
+
+// aliasArgs replaces string arguments by equal substrings of strings the
+// library returned earlier to this task (Plan.AliasArgs): same bytes, other
+// storage. The first match in the task's vault is taken (deterministic).
+func (x *runCtx) aliasArgs(tc *taskCtx, op Op) Op {
+	find := func(s string) string {
+		if s == "" {
+			return s
+		}
+		for i := len(tc.vault) - 1; i >= 0 && i >= len(tc.vault)-32; i-- {
+			if k := strings.Index(tc.vault[i].s, s); k >= 0 {
+				tc.probes.AliasedArgs++
+				return tc.vault[i].s[k : k+len(s)]
+			}
+		}
+		return s
+	}
+	switch op.K {
+	case kGet, kParse:
+		op.S = find(op.S)
+	case kSet:
+		op.S, op.S2 = find(op.S), find(op.S2)
+	}
+	return op
 }
 
 func errIdent(err error) string {
@@ -857,6 +899,29 @@ func runPlan(p *Plan, trace bool, collectCover bool) *runResult {
 		} // LoudObs: observed by the first task that uses the cell, as caller code
 		_ = i
 		x.cells = append(x.cells, c)
+	}
+	for _, es := range p.SharedErrs {
+		a := apis[es.Ver]
+		if a == nil {
+			continue
+		}
+		var err error
+		func() {
+			defer func() { recover() }()
+			rt.CalmReset()
+			switch es.K {
+			case "get":
+				_, err = a.Get(a.New(), es.S)
+			case "set":
+				err = a.Set(a.New(), es.S, es.S2)
+			default:
+				_, err = a.Parse(es.S)
+			}
+		}()
+		if err != nil {
+			x.sharedErrs = append(x.sharedErrs, err)
+			x.sharedErrVer = append(x.sharedErrVer, es.Ver)
+		}
 	}
 	page.protect()
 	wantPairs := p.Prop == "C07" || p.Prop == "C02" || p.Prop == "C09"
